@@ -66,6 +66,9 @@ func genTemplate(r *rand.Rand, id int, rich bool) corev1.PodTemplateSpec {
 			}
 		}
 		if r.Intn(8) == 0 {
+			t.Namespace, t.GenerateName = "ns2", pick(r, "", "pasted-")
+		}
+		if r.Intn(8) == 0 {
 			t.Labels[edsv1.ExtendedDaemonSetReplicaSetNameLabelKey] = "pasted-rs"
 			t.Labels[edsv1.ExtendedDaemonSetNameLabelKey] = "pasted-eds"
 		}
